@@ -84,6 +84,28 @@ class ProviderFuture:
         return ready(self.prov.result(m, self.req))
 
 
+class ReadyFut:
+    """tower::ServiceExt::ready: polls poll_ready until it is Ready; output Result<&mut S, S::Error>."""
+    rust_type = 'ReadyFut'
+
+    def __init__(self, svc):
+        self.svc = svc
+        self.done = False
+
+    def poll(self, m):
+        if self.done:
+            raise Panic('Ready polled after completion')
+        svc = deref(m, self.svc)
+        r = svc.poll_ready(m)
+        if r.variant == 'Pending':
+            return pending()
+        self.done = True
+        res = r.fields[0]
+        if res.variant == 'Err':
+            return ready(err(res.fields[0]))
+        return ready(ok(self.svc))
+
+
 class Oneshot:
     rust_type = 'Oneshot'
 
@@ -167,6 +189,8 @@ def install(m):
     L['poll'] = lambda m, a, c, rt: poll_future(m, a[0], a[1])
     L['Future::poll'] = L['poll']
     L['oneshot'] = lambda m, a, c, rt: Oneshot(a[0], a[1])
+    L['ServiceExt::ready'] = lambda m, a, c, rt: ReadyFut(a[0])
+    L['ready'] = L['ServiceExt::ready']
     L['ServiceExt::oneshot'] = L['oneshot']
 
     def poll_ready(m, a, c, rt):
